@@ -32,7 +32,7 @@ func init() {
 			"S12: the destination of every emission in the codec package (receiver of an interface Write/WriteByte/WriteString, a writer handed to another call) originates - through type assertions, phis, locals, results of package functions and parameters of private functions followed to their call sites - from values read in the same call, never from a private field of a struct that has an exported io.Writer field (the stream writer): every byte goes to the current value of the exported field. " +
 			"S13: no exit of UnmarshalBytes/UnmarshalString (exported decoders whose value is a byte slice or string) that can report an error is controlled by a condition computed from the decoded body (the value the other exits return, followed back through casts, copies and phis to the window, the copy or the delegate's value result; anything computed from it except len/cap), since the encoders accept every byte sequence. " +
 			"S14: an exit of a Marshal/Unmarshal function whose count is the constant 0 returns an error that is provably non-nil there (fresh, sentinel, a helper all of whose exits are fresh errors, or non-nil by the exit's branch facts): (0, nil) is never an answer. " +
-			"S15: on every way into a failing exit of UnmarshalBytes/UnmarshalString either the error of the decoder it delegates to is non-nil, or a branch fact says strictly wire length > len(buf) - header bytes (unsigned, signed on the converted value, or against a constant no int exceeds): no rejection on which length <= remaining may hold.",
+			"S15: on every way into a failing exit of UnmarshalBytes/UnmarshalString either the error of the decoder it delegates to is non-nil, or a branch fact says strictly wire length > len(buf) - header bytes (unsigned, signed on the converted value, or against a constant no int exceeds): no rejection on which length <= remaining may hold. S16: a Marshal function (and the private functions it hands its destination to) never uses cap() of the destination, and hands a slice of it to append / binary.Append* only where the branch facts show len(buf) has room for everything the call can add: an encoder writes only inside buf[:len(buf)].",
 		NotDecided: "the round-trip equality decode(encode(x))=x as a value statement; the shift/or arithmetic inside the loops.",
 	})
 	register(&Check{
@@ -46,7 +46,7 @@ func init() {
 			"R3: a wire length (result of a varint/fixed decoder, also when kept in a local struct) reaches arithmetic, slice bounds, indices or make sizes only where guard facts bound it: an unsigned comparison against a len(buf)-derived operand, or sign test plus signed bound after the conversion (the sign test may be made before the conversion: the unsigned value is compared with a constant the signed type can hold, and the signed bound may be tested on another evaluation of the same conversion); a window of t bytes is cut only after t was compared with what remains of the sliced value; an offset result that a private decoder proves to lie within its buffer at every success exit is bounded where it is used as a bound of that very buffer, or is added to the start of the window that was passed (a running offset fed this way is bounded as a bound of the buffer it walks) - any other arithmetic on it is reported. " +
 			"R4: every failure exit reports 0 consumed bytes (or the count of the failing callee, 0 under its own R4). " +
 			"R5: a returned slice/string derives from a sub-slice of the input or from a copy (SliceCopy, make+copy) of one; a returned list of byte sequences starts empty and grows by append of such values. " +
-			"R6: the consumed count of a success exit is a guarded constant, an expression the facts and loop invariants (loop variable <= len, len(cursor) <= len(buf) for a cursor only re-sliced without upper bound) place in [0,len(buf)], a callee count (also a further offset result of a private decoder that the callee proves to lie within its buffer at every success exit), a running offset that starts at 0 and grows by the counts of decoders applied to buf[offset:], the end offset of a window cut from buf under R3, or an external decoder's count under an n>0 guard. R3 also: a byte of the input used as a number (a one-byte length header) is a wire length where it bounds a slice. R7: private functions reached from the decoders (error constructors, formatters) index fixed-size tables in range, by interval evaluation of the index (constants, + - / by constants, widening conversions, bits.Len as a monotone function - bits.Len(x) of a 64-bit unsigned x that is not bounded below 2^63 ranges up to 64, i.e. over 65 values -, refined by dominating comparisons with constants). R8: in every loop of the decoders (and of the private functions they hand their input to) the cursor - an integer phi of the loop header that reaches an index or slice bound of the buffer, or a phi that is a window of the buffer - does not arrive recognisably unchanged (the phi itself, also through merges in the body, plus zero, re-sliced from 0) over any back edge: a way round the loop that does not advance reads the same byte again and never returns.",
+			"R6: the consumed count of a success exit is a guarded constant, an expression the facts and loop invariants (loop variable <= len, len(cursor) <= len(buf) for a cursor only re-sliced without upper bound) place in [0,len(buf)], a callee count (also a further offset result of a private decoder that the callee proves to lie within its buffer at every success exit), a running offset that starts at 0 and grows by the counts of decoders applied to buf[offset:], a count computed with the math/bits counting functions whose whole interval (TrailingZeros64 etc. range over 0..64) is covered by the length guard, the end offset of a window cut from buf under R3, or an external decoder's count under an n>0 guard. R3 also: a byte of the input used as a number (a one-byte length header) is a wire length where it bounds a slice. R7: private functions reached from the decoders (error constructors, formatters) index fixed-size tables in range, by interval evaluation of the index (constants, + - / by constants, widening conversions, bits.Len as a monotone function - bits.Len(x) of a 64-bit unsigned x that is not bounded below 2^63 ranges up to 64, i.e. over 65 values -, refined by dominating comparisons with constants). R8: in every loop of the decoders (and of the private functions they hand their input to) the cursor - an integer phi of the loop header that reaches an index or slice bound of the buffer, or a phi that is a window of the buffer - does not arrive recognisably unchanged (the phi itself, also through merges in the body, plus zero, re-sliced from 0) over any back edge: a way round the loop that does not advance reads the same byte again and never returns.",
 		NotDecided: "nothing material about panics on the idioms recognised; an unrecognised index/bound expression is reported as undecided (CHECK-ERROR), not guessed. 'Sub-range' is established as provenance, not arithmetic.",
 	})
 }
@@ -950,6 +950,12 @@ func (c *Ctx) successCount(fn *ssa.Function, ep exitB, cx *linCtxB, cnt ssa.Valu
 			return
 		}
 	}
+	if lo, hi, usesBits, ok := bitCountIntervalV(cnt, 0); ok && usesBits { // a count found by bit counting (v_codec_h_count.go)
+		lb := cx.lenAtLeast(buf)
+		c.Decide(rule, fn, what, ret, lo >= 0 && hi <= lb,
+			fmt.Sprintf("the consumed count is computed with a math/bits counting function and ranges over [%d,%d], but the guards of this exit only give len(buf) >= %d: for an input without the bit pattern the count is looking for, a count beyond the input is reported as success", lo, hi, lb))
+		return
+	}
 	total := cx.of(cnt)
 	// the count is the end offset of a window that was cut from buf on the way to this exit: its parts are bounded by R3
 	// where the window is cut, the slice expression's own run-time check cannot fire there
@@ -1011,6 +1017,7 @@ func runC15(c *Ctx) {
 	c.decodersAcceptEveryBody()    // S13 (v_codec_domain.go)
 	c.zeroCountIsFailure()         // S14 (v_codec_g_exits.go)
 	c.lengthRejectionsAreStrict()  // S15 (v_codec_g_exits.go)
+	c.encodersStayInsideLen()      // S16 (v_codec_h_dest.go)
 	// S7 short buffer is an error
 	handedTo := map[*ssa.Parameter]bool{}
 	for _, fn := range xbinaryFuncs(c, "Marshal") {
